@@ -90,3 +90,20 @@ def wf_event(ev: 'Event') -> 'Bool':
 
 
 from specs.tree import wf_q as wf_q_  # noqa: E402
+
+
+# ---- (iii) no channel occurs twice inside one event disjunction
+
+@spec
+def channels_ok(names: 'Set[Str]', evs: 'Seq[Event]') -> 'Bool':
+    """no channel of evs (read from the last to the first) is in `names` or repeated"""
+    if len(evs) == 0:
+        return True
+    last = evs[-1]
+    n = last.name if isinstance(last, HplSimpleEvent) else ''
+    return n not in names and channels_ok(names | {n}, evs[:-1])
+
+
+@spec
+def distinct_channels(evs: 'Seq[Event]') -> 'Bool':
+    return channels_ok(set(), evs)
